@@ -148,9 +148,24 @@ CLAIMED["C20"] = {
     "technique": "exhaustive single-fault enumeration over real artefacts with a TLA+ spec as the verdict oracle (trace validation) + model-checked pipeline order",
 }
 
+CLAIMED["C09"] = {
+    "level": "model_checking",
+    "text": ("ReadOnlyGate.tla models the listener/filter dispatch of the parse context over clause skeletons derived from Cypher.g4 (every rule "
+             "entry is offered to every filter; an error list decides acceptance) and TLC checks, for every skeleton up to 3 (thorough: 4) "
+             "clauses, that acceptance implies no updating clause, call or parameter. The same TLC run enumerates the skeletons; each is "
+             "rendered, parsed by the real parser without filters (control) and under DefaultCypherContext, and accepted queries are "
+             "translated; TLC validates every record against the statement (accepted => no forbidden construct, no DML on graph tables). "
+             "Every corpus query the default context accepts is additionally re-parsed with each forbidden clause inserted."),
+    "design_ref": "DESIGN.md 4/C09",
+    "note": ("Clause-level abstraction with one rendering per clause kind; nesting positions covered: FOREACH bodies, MERGE ON CREATE SET, "
+             "parameters in WHERE / map / SKIP / LIMIT / UNWIND. Constructs the parser does not support at all (FOREACH, CREATE UNIQUE) are "
+             "rejected even unfiltered, which the control parse shows. LOAD CSV / START are outside the statement's list."),
+    "technique": "TLA+ model of the filter dispatch model-checked over all clause skeletons, the same skeletons replayed on the real parser and translator, TLC trace validation",
+}
+
 _NB = "not built yet in this round (design in DESIGN.md section 4)"
 NOT_APPLICABLE = {
     "C01": "needs the emitted SQL executed on PostgreSQL; no SQL engine exists in this sandbox and a TLA+ model of PostgreSQL would verify the model, not DAWGS (DESIGN.md section 5)",
-    "C02": _NB, "C03": _NB, "C04": _NB, "C05": _NB, "C06": _NB, "C07": _NB, "C08": _NB, "C09": _NB, "C10": _NB,
+    "C02": _NB, "C03": _NB, "C04": _NB, "C05": _NB, "C06": _NB, "C07": _NB, "C08": _NB, "C10": _NB,
     "C11": _NB, 
 }
